@@ -375,5 +375,7 @@ def run(rep, tier):
         from . import c12
         rep.call(c12.copy_cond, rep, prog, "C07.copy-cond")
         from ..engines import row_coverage
+        from ..engines import simd_rules as _sr
+        rep.call(_sr.float_alpha_unsaturated, rep, prog, "C07.float-unsaturated")
         rep.call(row_coverage.divide_every_chunk, rep, prog, "C07.divide-every-chunk",
                  {"x86": 6, "x86-rayon": 6, "wasm": 1}.get(cfg, 0))
